@@ -8,7 +8,7 @@ RULE = ('proof: universal theorems over all record lists + kernel evaluation on 
         'the five ConnectionContext predicates vs the model and vs the order axioms; in_range over (start,end) pairs from a '
         'boundary set (all PRE numbers, layout switches, neighbours) x every known version; (b) generated histories of '
         'run-time record extensions (append / insert in the middle / duplicate ids and protocols / unsupported / release-like ids, '
-        'legacy supported-dict edits) each followed by initglobals in either mode, all seven tables compared with the model. '
+        'legacy supported-dict edits) each followed by initglobals in either mode, all seven tables compared with the model, and contexts created before the first extension re-asked after every step. '
         'Non-trivial = pair of distinct numbers, or a history with at least one extension; distinct by canonical case.')
 
 TABLES = ['KNOWN_MINECRAFT_VERSIONS', 'KNOWN_PROTOCOL_VERSIONS', 'PROTOCOL_VERSION_INDICES', 'SUPPORTED_MINECRAFT_VERSIONS',
@@ -135,6 +135,10 @@ def run_history(chk, base, ops, suite='history'):
         seen_ids = set(r[0] for r in recs)
         state = run_model([('initglobals', [True, rel_ids(seen_ids), enc(recs), [[], [], [], [], [], [], []]])])[0]
         steps = []
+        # contexts that exist before the records are extended must keep comparing by the current chronological position
+        from minecraft.networking.connection import ConnectionContext
+        kp = list(mc.KNOWN_PROTOCOL_VERSIONS)
+        old_ctx = [ConnectionContext(protocol_version=p) for p in (kp if len(kp) < 20 else kp[::17] + kp[-3:])]
         for op in ops:
             if op[0] == 'extend':
                 _o, where, r, new, known_mode = op
@@ -176,6 +180,22 @@ def run_history(chk, base, ops, suite='history'):
                 if mc.PROTOCOL_VERSION_INDICES.get(p) != i:
                     return 'PROTOCOL_VERSION_INDICES[%d] = %r but its position in KNOWN_PROTOCOL_VERSIONS is %d' % (
                         p, mc.PROTOCOL_VERSION_INDICES.get(p), i)
+            kp = list(mc.KNOWN_PROTOCOL_VERSIONS)
+            where = {p: i for i, p in enumerate(kp)}
+            qs = kp if len(kp) < 20 else kp[::41] + [r[1] for r in (op[3] if op[0] == 'extend' else []) if r[1] in where] + kp[-2:]
+            for c in old_ctx:
+                p = c.protocol_version
+                if p not in where:
+                    continue
+                for q in qs:
+                    a, b = where[p], where[q]
+                    got = [call(c.protocol_earlier, q), call(c.protocol_earlier_eq, q), call(c.protocol_later, q), call(c.protocol_later_eq, q),
+                           call(c.protocol_in_range, q, kp[-1])]
+                    want = [['ok', a < b], ['ok', a <= b], ['ok', a > b], ['ok', a >= b], ['ok', b <= a < len(kp) - 1]]
+                    if got != want:
+                        return ('after %s + initglobals(use_known_records=%s): a ConnectionContext(protocol_version=%d) created before the extension answers '
+                                'earlier/earlier_eq/later/later_eq(%d), in_range(%d, %d) = %r; chronological positions are now %d and %d' % (
+                                    op[0], use, p, q, q, kp[-1], [g[1] for g in got], a, b))
         return None
     finally:
         mc.KNOWN_MINECRAFT_VERSION_RECORDS[:] = saved
